@@ -20,6 +20,41 @@ ASSUMPTIONS = ["std::chrono::steady_clock is monotonic",
 GATE = ("steady_clock::now()", "pause_actions_until_")
 
 
+def pause_value_rule(ctx):
+    """The ruleset's own pause on STOP: steady now + seconds(post_action_delay_), the clock read after the stopping action returned
+    (shared by C05 and C02's 'not inside its post-action pause')."""
+    P = ctx.prog
+    chain = ctx.fn1("Oomd::Engine::Ruleset::run_action_chain")
+    pw = field_writes(chain, "pause_actions_until_")
+    ctx.counters["pause_writes_in_chain"] = len(pw)
+    ctx.floor("pause_writes_in_chain", 1, "writes of pause_actions_until_ in run_action_chain")
+    Xch = Expander(P, chain)
+    runs_ = virtual_run_calls(chain)
+    for i in pw:
+        rhs = Xch(write_rhs(chain, i))
+        ctx.check("steady_clock::now()" in rhs and "post_action_delay_" in rhs and "+" in rhs,
+                  "stop-pause-value:run_action_chain", "value-shape", chain.loc(i),
+                  "pause = steady now + seconds(post_action_delay_)",
+                  "pause written from unexpected expression: " + rhs)
+        # t is the time the chain ENDED with STOP: the clock is read after the stopping action returned
+        src = write_rhs(chain, i)
+        nows = [x for x in chain.walk(src) if chain.nodes[x]["k"] == "call" and chain.nodes[x].get("cname") == "now"]
+        if not nows:
+            for x in chain.walk(src):
+                m_ = chain.nodes[x]
+                if m_["k"] == "ref" and m_.get("dk") == "local":
+                    init_, v_ = local_init(chain, m_["name"], must=False)
+                    if v_ is not None and init_ is not None and init_ >= 0:
+                        nows += [y for y in chain.walk(init_) if chain.nodes[y]["k"] == "call" and chain.nodes[y].get("cname") == "now"]
+        fo_ = Flow(P, chain, events={r_: [("set", "action-ran")] for r_ in runs_}, cg=ctx.cg)
+        after = bool(nows) and all(chain.pos_of(x) is not None and fo_.must(x, "action-ran") for x in nows)
+        ctx.check(after, "stop-pause-counted-from-chain-end:run_action_chain", "order (clock read after the action returned)", chain.loc(nows[0]) if nows else chain.loc(i),
+                  "the clock value the pause is computed from is read after the stopping action's run() returned",
+                  "the pause is computed from a clock value read before the stopping action ran: the pause ends d seconds after the chain STARTED, so a slow "
+                  "action (long kill, blocking restart) shortens or cancels the post-action delay")
+
+
+
 def run(ctx):
     # locals / parameters the rules below refer to by name (a rename makes the analysis 'broken', never a violation)
     ctx.anchor(ctx.fn1('Oomd::Engine::Ruleset::runOnceImpl'), 'run_actions')
@@ -108,31 +143,7 @@ def run(ctx):
                   "on STOP the pause is written iff the plugin did not override it",
                   "on STOP the write of pause_actions_until_ is not tied to "
                   "!plugin_overrode_post_action_delay_")
-        Xch = Expander(P, chain)
-        runs_ = virtual_run_calls(chain)
-        for i in pw:
-            rhs = Xch(write_rhs(chain, i))
-            ctx.check("steady_clock::now()" in rhs and "post_action_delay_" in rhs and "+" in rhs,
-                      "stop-pause-value:run_action_chain", "value-shape", chain.loc(i),
-                      "pause = steady now + seconds(post_action_delay_)",
-                      "pause written from unexpected expression: " + rhs)
-            # t is the time the chain ENDED with STOP: the clock is read after the stopping action returned
-            src = write_rhs(chain, i)
-            nows = [x for x in chain.walk(src) if chain.nodes[x]["k"] == "call" and chain.nodes[x].get("cname") == "now"]
-            if not nows:
-                for x in chain.walk(src):
-                    m_ = chain.nodes[x]
-                    if m_["k"] == "ref" and m_.get("dk") == "local":
-                        init_, v_ = local_init(chain, m_["name"], must=False)
-                        if v_ is not None and init_ is not None and init_ >= 0:
-                            nows += [y for y in chain.walk(init_) if chain.nodes[y]["k"] == "call" and chain.nodes[y].get("cname") == "now"]
-            fo_ = Flow(P, chain, events={r_: [("set", "action-ran")] for r_ in runs_}, cg=ctx.cg)
-            after = bool(nows) and all(chain.pos_of(x) is not None and fo_.must(x, "action-ran") for x in nows)
-            ctx.check(after, "stop-pause-counted-from-chain-end:run_action_chain", "order (clock read after the action returned)", chain.loc(nows[0]) if nows else chain.loc(i),
-                      "the clock value the pause is computed from is read after the stopping action's run() returned",
-                      "the pause is computed from a clock value read before the stopping action ran: the pause ends d seconds after the chain STARTED, so a slow "
-                      "action (long kill, blocking restart) shortens or cancels the post-action delay")
-
+        pause_value_rule(ctx)
     # ---- R4 pause_actions
     pw2 = field_writes(pause, "pause_actions_until_")
     fw2 = [i for i in field_writes(pause, "plugin_overrode_post_action_delay_")
